@@ -11,9 +11,13 @@ import time
 HARNESS = os.path.dirname(os.path.abspath(__file__))
 VERIF = os.path.dirname(HARNESS)
 REPO = os.environ.get("VSG_VERIF_REPO", "/repo")
-CACHE = os.path.join(VERIF, ".cache")
-WORK = os.path.join(VERIF, ".work")
-EVIDENCE = os.path.join(VERIF, "evidence")
+# VSG_VERIF_SCRATCH (self tests only): scratch space, cache, evidence and replay files of a run against a scratch copy of the
+# repository (VSG_VERIF_REPO) go there, so that such runs neither disturb each other nor the files of /verif
+BASE = os.environ.get("VSG_VERIF_SCRATCH") or VERIF
+CACHE = os.path.join(BASE, ".cache")
+WORK = os.path.join(BASE, ".work")
+EVIDENCE = os.path.join(BASE, "evidence")
+REPLAY = os.path.join(BASE, "replay")
 
 
 def seed():
